@@ -248,6 +248,8 @@ uint64_t* vp_this_naxes; uint64_t* vp_this_strides; float* vp_this_coefficients;
 /* storage primitives, implemented by the interpreter (hooks): objects are sized exactly, freed objects die */
 void* vp_new(size_t elsize, size_t n);            /* new T[n]                      */
 void* vp_allocate(size_t elsize, size_t n);       /* allocate<T>(n)   (allocator)  */
+int vp_thrown;                                    /* ghost: an exception is propagating (R7, R31) */
+bool vp_guard_armed; void release(void);          /* scope guard (R28); release() is extracted in the unified unit only */
 void  vp_deallocate(void* p, size_t n);           /* deallocate(p, n) (allocator)  */
 void  vp_sort_double(double* first, double* last);/* std::sort on doubles          */
 void  vp_copy(const void* first, const void* last, void* out);   /* std::copy      */
@@ -275,6 +277,9 @@ def convolve_function():
     body = r.sub("R17_deallocate", r"(?<![A-Za-z0-9_])deallocate\(", "vp_deallocate(", body, must_fire=True)
     body = r.sub("R3_float_literal", r"\b0\.f\b", "0.0f", body)
     body = X.functional_casts(r, body)
+    body = r.sub("R4_nullptr", r"\bnullptr\b", "NULL", body)
+    body = alloc_may_throw(r, body, "return;")
+    body = void_scope_guard(r, body, "convolve_guard")
     for bad in ("std::", "this", "unique_ptr", "allocate<"):
         if re.search(r"(?<![A-Za-z0-9_])" + re.escape(bad), body.replace("vp_this_", "")): raise ExtractionError("convolve(): unhandled C++ construct '%s' left after the rewrite rules" % bad)
     hdr = "void convolve(const uint32_t dim, const double* conv_knots, size_t n_conv_knots)"
@@ -338,6 +343,7 @@ def fit_function():
     body = r.sub("R17_allocate", r"allocate<([\w]+)>\((.*?)\)(\s*[;+])", r"((\1*)vp_allocate(sizeof(\1), \2))\3", body, must_fire=True)
     body = r.sub("R10_initializer", r"\(monodim==no_monodim\?-1:\(int\)monodim\)", "(monodim==no_monodim?(uint32_t)-1:(uint32_t)(int)monodim)", body)
     body = r.sub("R16_fill_null", r"std::fill\(([^;]*?),\s*nullptr\);", r"vp_fill_null(\1);", body)
+    body = alloc_may_throw(r, body, "return;")
     body = void_scope_guard(r, body, "fit_guard")
     for bad in ("std::", "this->", "unique_ptr", "allocate<", ".size()", ".begin()", ".data()", "guard"):
         if bad in body.replace("vp_guard_armed", ""): raise ExtractionError("fit(): unhandled C++ construct '%s' left after the rewrite rules" % bad)
@@ -354,7 +360,8 @@ def void_scope_guard(r, body, name):
     tail = r.sub("R28_guard_disarm", r"\bguard\.armed\s*=\s*false;", "vp_guard_armed = false;", tail)
     k = tail.rstrip().rfind("}")
     tail = tail[:k] + "if (vp_guard_armed) release();\n" + tail[k:]
-    return head + "vp_guard_armed = true;" + tail
+    k0 = head.index("{")
+    return head[:k0 + 1] + " vp_guard_armed = false;" + head[k0 + 1:] + "vp_guard_armed = true;" + tail
 
 # ---------------------------------------------------------------------------
 # splinetable::permuteDimensions (permute.h): whole-function extraction for exact execution (C15)
@@ -472,6 +479,7 @@ void* vp_new(size_t elsize, size_t n); void vp_delete(void* p); void* vp_allocat
 void  vp_copy(const void* first, const void* last, void* out);
 size_t strlen(const char*); int strcmp(const char*, const char*); int strncmp(const char*, const char*, size_t);
 int vp_isupper(int); int vp_isdigit(int); int vp_islower(int);
+void vp_swap(void* a, void* b);                   /* std::swap of two objects of the same type */
 '''
 
 def strip_try_catch(rules, body):
@@ -501,6 +509,7 @@ def aux_functions():
         body = r.sub("R15_delete_array", r"delete\[\]\s*(\w+);", r"vp_delete(\1);", body)
         body = r.sub("R17_allocate", r"allocate<(\w+)>\((.*?)\)(\s*[;+])", r"((\1*)vp_allocate(sizeof(\1), \2))\3", body)
         body = r.sub("R17_deallocate", r"(?<![A-Za-z0-9_])deallocate\(", "vp_deallocate(", body)
+        body = r.sub("R16_swap", r"std::swap\(([^,;]+),([^;]+)\);", r"vp_swap(&(\1), &(\2));", body)
         body = r.sub("R16_copy_n", r"std::copy_n\(([^,]+),([^,]+),([^;]+)\);", r"vp_copy(\1, (\1) + (\2), \3);", body)
         body = r.sub("R16_copy", r"std::copy\(", "vp_copy(", body)
         body = r.sub("R24_ctype", r"std::(isupper|isdigit|islower)\(", r"vp_\1(", body)
@@ -648,6 +657,21 @@ def file_guard(r, body):
     body = re.sub(r"(?<![A-Za-z0-9_])cleanup\.close\(\)", "vp_cleanup_close()", body)
     return body, helpers
 
+def alloc_may_throw(r, body, exit_text):
+    """R31: `LHS = ((T*)vp_allocate(sizeof(E), N))REST;` -> `T* vp_aK = (T*)vp_allocate(sizeof(E), N); if (vp_thrown) EXIT LHS = (vp_aK)REST;`
+    allocate<T>() may throw std::bad_alloc: the assignment does not happen and the function is left by the exception exit"""
+    out = []; k = r.counts.get("R31_alloc_may_throw", 0)
+    pat = re.compile(r"^(?P<ind>\s*)(?P<lhs>[^=;{}]+?)\s*=\s*\(\((?P<ty>\w+\*)\)vp_allocate\(sizeof\((?P<el>\w+)\), (?P<n>.*)\)\)(?P<rest>[^;]*);\s*$")
+    for line in body.split("\n"):
+        if "vp_allocate(" in line:
+            m = pat.match(line)
+            if not m: raise ExtractionError("allocation statement of an unexpected shape: " + line.strip())
+            k += 1
+            line = "%s%s vp_a%d = (%s)vp_allocate(sizeof(%s), %s); if (vp_thrown) %s %s = (vp_a%d)%s;" % (m.group("ind"), m.group("ty"), k, m.group("ty"), m.group("el"), m.group("n"), exit_text, m.group("lhs").strip(), k, m.group("rest"))
+        out.append(line)
+    r.counts["R31_alloc_may_throw"] = k
+    return "\n".join(out)
+
 def _no_cxx_left(name, body, extra=()):
     for bad in ("std::", "this->", "unique_ptr", "allocate<", ".size()", ".begin()", ".data()", ".get()", "throw", "ostringstream") + tuple(extra):
         if re.search(r"(?<![A-Za-z0-9_])" + re.escape(bad), body): raise ExtractionError("%s(): unhandled C++ construct '%s' left after the rewrite rules" % (name, bad))
@@ -667,6 +691,7 @@ def fits_functions():
     body = r.sub("R16_reverse", r"std::reverse\(", "vp_reverse(", body, must_fire=True)
     body = r.sub("R18_data", r"\b(naxes_temp|fpixel)\.data\(\)", r"\1", body, must_fire=True)
     body = r.sub("R24_isfinite", r"std::isfinite\(", "vp_isfinite(", body)
+    body = alloc_may_throw(r, body, "return false;")
     # R28: a local scope guard `struct G{ splinetable& table; bool armed; ~G(){ if(armed) table.release(); } } guard{*this,true};`
     # becomes a flag; the function is emitted as NAME_body and a generated wrapper runs the guard's destructor at scope exit
     # (every return, including the early returns that stand for throws)
@@ -675,7 +700,7 @@ def fits_functions():
     _no_cxx_left("read_fits_core", body, extra=("read_guard", "guard."))
     if r.counts["R28_scope_guard"]:
         out["read_fits_core"] = Extracted("read_fits_core_body", "bool read_fits_core_body(fitsfile* fits)", body, r, FITSIO_H, X.find_loops(body))
-        out["read_fits_core_wrapper"] = Extracted("read_fits_core", "bool read_fits_core(fitsfile* fits)", "{ bool vp_r = read_fits_core_body(fits); if (vp_guard_armed) release(); return vp_r; }", X.Rules(), FITSIO_H + " (generated by R28)", [])
+        out["read_fits_core_wrapper"] = Extracted("read_fits_core", "bool read_fits_core(fitsfile* fits)", "{ vp_guard_armed = false; bool vp_r = read_fits_core_body(fits); if (vp_guard_armed) release(); return vp_r; }", X.Rules(), FITSIO_H + " (generated by R28)", [])
     else:
         out["read_fits_core"] = Extracted("read_fits_core", "bool read_fits_core(fitsfile* fits)", body, r, FITSIO_H, X.find_loops(body))
     # --- destructor
